@@ -209,6 +209,7 @@ inductive MOp where
   | freshNodes (ls : List Label)          -- `x = [Node(...), …]; current.nodes(x)`: a new list object of new node objects
   | useList (b : Nat)                     -- `current.nodes(x_b)`: the b-th list object, in whatever order and state it is now
   | compute                               -- `current.compute()`
+  | setWidths (b : Nat) (ws : List Rat)   -- the caller assigns `node.width = w` to the node objects of the b-th list (in creation order)
 
 structure MWorld where
   store : Store
@@ -253,6 +254,10 @@ def MWorld.step (w : MWorld) : MOp → MWorld
       let obs := (observe r.2 (r.1.layers.getD [])).map (fun l => l.map (fun x => { x with data := batch.idxOf x.data }))
       { w with store := r.2, lists := lists, engines := w.engines.modify w.cur (fun e => { e with layers := r.1.layers }),
                outs := w.outs ++ [(w.cur, obs)] }
+  | .setWidths b ws =>
+    match w.created[b]? with
+    | some ids => { w with store := (ids.zip ws).foldl (fun s p => set s p.1 { get s p.1 with width := p.2 }) w.store }
+    | none => w
 
 def MWorld.run (ops : List MOp) : MWorld := ops.foldl MWorld.step MWorld.init
 
